@@ -57,7 +57,7 @@ enum Transposition {
 
 /// An edge between nodes is a tuple struct `Edge(u, v, e)` where `u` is the
 /// source node, `v` is the target node, and `e` is the edge's value.
-#[derive(Clone, PartialEq)]
+#[derive(Clone)]
 pub struct Edge<K = usize, N = (), E = ()>(pub Node<K, N, E>, pub Node<K, N, E>, pub E)
 where
     K: Clone + Hash + PartialEq + Eq + Display,
@@ -88,6 +88,18 @@ where
     /// Reverse the edge's direction.
     pub fn reverse(&self) -> Edge<K, N, E> {
         Edge(self.1.clone(), self.0.clone(), self.2.clone())
+    }
+}
+
+/// Two edges are equal if they join the same nodes (as in `digraph`).
+impl<K, N, E> PartialEq for Edge<K, N, E>
+where
+    K: Clone + Hash + PartialEq + Eq + Display,
+    N: Clone,
+    E: Clone,
+{
+    fn eq(&self, other: &Self) -> bool {
+        self.0 == other.0 && self.1 == other.1
     }
 }
 
